@@ -27,7 +27,7 @@ def _vocab(f):
         elif isinstance(x, ast.Constant) and not (isinstance(x.value, str) and len(x.value) > 20):
             out.add(repr(x.value))
     a = f.node.args
-    return [len(a.posonlyargs + a.args), sorted(out)]
+    return [len(a.posonlyargs + a.args), sorted(out), sorted(f.params())]
 
 
 # vocabulary of every top-level function / method: used to recognise a function that was renamed AND restyled (engine/inline.py)
